@@ -13,8 +13,10 @@ import (
 	"fmt"
 	"io/ioutil"
 	"os"
+	"path/filepath"
 	"sort"
 	"strings"
+	"sync"
 	"time"
 
 	"github.com/practable/relay/internal/agg"
@@ -59,6 +61,10 @@ type Case struct {
 	Hang    bool     `json:"hang"`  // the hub did not take op len(Outs) within the watchdog
 	Detail  string   `json:"detail,omitempty"`
 	Retries int      `json:"retries,omitempty"`
+	Starved bool     `json:"starved,omitempty"` // a member of the inner hub's list got nothing in ~1 s of repeats: history cut there
+	// host scenarios only: how the stream subscriber's destination stalls
+	Refuse  int `json:"refuse,omitempty"`   // re-dials refused after the drop
+	DelayMs int `json:"delay_ms,omitempty"` // the first accepted re-dial is held this long before the upgrade
 }
 
 func streamName(s int) string {
@@ -125,6 +131,8 @@ func (c Case) coq() string {
 			ops[i] = "DeleteAll"
 		case "B":
 			ops[i] = lib.App("Bcast", lib.N(uint64(o.F[0])))
+		case "Stall":
+			ops[i] = lib.App("Bcast", lib.N(0)) // not an operation of the hub: a feed nobody uses
 		}
 	}
 	outs := make([]string, len(c.Outs))
@@ -150,8 +158,8 @@ type runner struct {
 	timer  *time.Timer
 	cl     []*hub.Client
 	dummy  *hub.Client
-	got    []map[string]bool // per client: tags seen
-	failed string            // "panic" | "hang"
+	got    []map[string]int // per client: how often each tag was seen
+	failed string           // "panic" | "hang"
 }
 
 func (r *runner) arm() {
@@ -205,7 +213,7 @@ func (r *runner) drain() {
 		for {
 			select {
 			case m := <-c.Send:
-				r.got[i][string(m.Data)] = true
+				r.got[i][string(m.Data)]++
 			default:
 				goto next
 			}
@@ -270,7 +278,10 @@ func tag(idx, attempt int) string { return fmt.Sprintf("p%d", idx) + fmt.Sprintf
 // any fault; the probe is therefore repeated while a member of the inner hub's own list for the feed
 // has not received it. That list only paces the retries - the verdict is the oracle's.
 func (r *runner) probe(c *Case, f int, idx int) bool {
-	wait := 200 * time.Microsecond
+	// every wait is bounded: 8 attempts, 4 ms .. 512 ms (about 1 s in all). A subscriber on the inner
+	// hub's list that still has nothing then is starved; the history is cut after this operation and
+	// the oracle reports it.
+	wait := 4 * time.Millisecond
 	for attempt := 0; attempt < 8; attempt++ {
 		tg := tag(idx, attempt)
 		msg := hub.Message{Data: []byte(tg), Sender: hub.Client{Name: "probe", Topic: feedName(f)}, Sent: time.Now(), Type: 1}
@@ -286,20 +297,20 @@ func (r *runner) probe(c *Case, f int, idx int) bool {
 		if !ok || !r.barrier() {
 			return false
 		}
-		// who did the inner hub offer it to? (the hub goroutines are idle after the barrier)
-		want := map[int]bool{}
+		// who did the inner hub offer it to, and how often? (the hub goroutines are idle after the barrier)
+		want := map[int]int{}
 		for m := range r.h.Hub.Clients[feedName(f)] {
 			var k int
 			if _, err := fmt.Sscanf(m.Name, "c%d", &k); err == nil && k >= 1 && k <= nClients {
-				want[k-1] = true
+				want[k-1]++
 			}
 		}
-		deadline := time.Now().Add(wait * 20)
+		deadline := time.Now().Add(wait)
 		for {
 			r.drain()
 			all := true
-			for k := range want {
-				if !r.got[k][tg] {
+			for k, n := range want {
+				if r.got[k][tg] < n {
 					all = false
 				}
 			}
@@ -309,11 +320,12 @@ func (r *runner) probe(c *Case, f int, idx int) bool {
 			if time.Now().After(deadline) {
 				break
 			}
-			time.Sleep(wait / 4)
+			time.Sleep(100 * time.Microsecond)
 		}
 		c.Retries++
-		wait *= 3
+		wait *= 2
 	}
+	c.Starved = true
 	return true
 }
 
@@ -333,10 +345,10 @@ func runHistory(c *Case) {
 	for i, t := range c.Topics {
 		r.cl = append(r.cl, &hub.Client{Hub: r.h.Hub, Name: fmt.Sprintf("c%d", i+1), Topic: t.name(),
 			Send: make(chan hub.Message, 4096), Stats: hub.NewClientStats()})
-		r.got = append(r.got, map[string]bool{})
+		r.got = append(r.got, map[string]int{})
 	}
 	r.dummy = &hub.Client{Hub: r.h.Hub, Name: "barrier", Topic: "zz-barrier", Send: make(chan hub.Message, 1), Stats: hub.NewClientStats()}
-	c.Outs, c.Panic, c.Hang, c.Detail, c.Retries = nil, false, false, "", 0
+	c.Outs, c.Panic, c.Hang, c.Detail, c.Retries, c.Starved = nil, false, false, "", 0, false
 	n := 0
 	c.Lists = nil
 	for i, o := range c.Ops {
@@ -357,6 +369,9 @@ func runHistory(c *Case) {
 			sort.Slice(l, func(a, b int) bool { return l[a].S < l[b].S })
 		}
 		c.Lists = append(c.Lists, l)
+		if c.Starved {
+			break
+		}
 	}
 	if r.failed == "" {
 		time.Sleep(2 * time.Millisecond)
@@ -372,12 +387,16 @@ func runHistory(c *Case) {
 	for i := 0; i < n; i++ {
 		out := []int{}
 		if c.Ops[i].K == "B" {
+			// once per copy: the largest number of copies of one broadcast (attempt) that arrived
 			for k := range r.cl {
-				for tg := range r.got[k] {
-					if strings.HasPrefix(tg, fmt.Sprintf("p%da", i)) {
-						out = append(out, k+1)
-						break
+				copies := 0
+				for tg, cnt := range r.got[k] {
+					if strings.HasPrefix(tg, fmt.Sprintf("p%da", i)) && cnt > copies {
+						copies = cnt
 					}
+				}
+				for j := 0; j < copies; j++ {
+					out = append(out, k+1)
 				}
 			}
 		}
@@ -505,6 +524,15 @@ func oracle(c Case, idx int, res *lib.Result) {
 		res.Violate(lib.Violation{Clause: clause, Case: idx, Detail: detail, Replay: c, Key: clause + ":" + key})
 	}
 	lastRuleOp := "start"
+	histTo := func(i int) string {
+		hs := []string{}
+		for _, p := range c.Ops[:i+1] {
+			if p.K != "B" {
+				hs = append(hs, p.String())
+			}
+		}
+		return "; history (broadcasts omitted): " + strings.Join(hs, "; ")
+	}
 	reg := map[int]bool{}
 	rules := map[int][]int{}
 	wf := wellFormed(c)
@@ -546,6 +574,8 @@ func oracle(c Case, idx int, res *lib.Result) {
 		case "DelAll":
 			rules = map[int][]int{}
 			lastRuleOp = "DelAll"
+		case "Stall":
+			lastRuleOp = "stall"
 		}
 		if o.K != "B" && i < len(c.Lists) {
 			got := c.Lists[i]
@@ -571,37 +601,40 @@ func oracle(c Case, idx int, res *lib.Result) {
 				continue
 			}
 			f := o.F[0]
-			got := map[int]bool{}
+			got := map[int]int{}
 			for _, k := range c.Outs[i] {
-				got[k] = true
+				got[k]++
 			}
-			for k := 1; k <= nClients; k++ {
+			for k := 1; k <= len(c.Topics); k++ {
 				t := c.Topics[k-1]
-				want := false
+				want := 0 // copies: once per time the latest rule names the feed (the hub subscribes per entry)
 				if reg[k] {
 					if t.Stream {
 						for _, g := range rules[t.N] {
 							if g == f {
-								want = true
+								want++
 							}
 						}
-					} else {
-						want = t.N == f
+					} else if t.N == f {
+						want = 1
 					}
 				}
 				switch {
-				case got[k] && !want && t.Stream:
+				case got[k] > 0 && want == 0 && t.Stream:
 					bad("feed-not-in-latest-rule", "after-"+lastRuleOp,
-						fmt.Sprintf("op %d: client %d on %s received feed %s, which its latest rule %v does not name (registered=%v)", i, k, t.name(), feedName(f), rules[t.N], reg[k]))
-				case got[k] && !want:
+						fmt.Sprintf("op %d: client %d on %s received feed %s, which its latest rule %v does not name (registered=%v)", i, k, t.name(), feedName(f), rules[t.N], reg[k])+histTo(i))
+				case got[k] > 0 && want == 0:
 					bad("plain-subscriber-affected", "after-"+lastRuleOp,
-						fmt.Sprintf("op %d: plain client %d on %s received feed %s (registered=%v)", i, k, t.name(), feedName(f), reg[k]))
-				case !got[k] && want && t.Stream:
+						fmt.Sprintf("op %d: plain client %d on %s received feed %s (registered=%v)", i, k, t.name(), feedName(f), reg[k])+histTo(i))
+				case got[k] == 0 && want > 0 && t.Stream:
 					bad("missing-feed", "after-"+lastRuleOp,
-						fmt.Sprintf("op %d: client %d on %s did not receive feed %s named by its latest rule %v", i, k, t.name(), feedName(f), rules[t.N]))
-				case !got[k] && want:
+						fmt.Sprintf("op %d: client %d on %s did not receive feed %s named by its latest rule %v (the broadcast was repeated for about 1 s)", i, k, t.name(), feedName(f), rules[t.N])+histTo(i))
+				case got[k] == 0 && want > 0:
 					bad("plain-subscriber-affected", "missing-after-"+lastRuleOp,
-						fmt.Sprintf("op %d: plain client %d on %s did not receive its feed", i, k, t.name()))
+						fmt.Sprintf("op %d: plain client %d on %s did not receive its feed", i, k, t.name())+histTo(i))
+				case got[k] > want:
+					bad("duplicate-delivery", "after-"+lastRuleOp,
+						fmt.Sprintf("op %d: client %d on %s received the same broadcast on feed %s %d times (its latest rule %v names the feed %d time(s))", i, k, t.name(), feedName(f), got[k], rules[t.N], want)+histTo(i))
 				}
 			}
 		}
@@ -621,6 +654,8 @@ func (o Op) String() string {
 		return "Del " + streamName(o.S)
 	case "B":
 		return fmt.Sprintf("B f%d", o.F[0])
+	case "Stall":
+		return "Stall (the stream subscriber's destination drops, then refuses / delays the re-dial)"
 	}
 	return o.K
 }
@@ -676,6 +711,11 @@ func childJob(p json.RawMessage) json.RawMessage {
 	if err := json.Unmarshal(p, &c); err != nil {
 		panic(err)
 	}
+	if c.Kind == "host" {
+		runHost(&c)
+		b, _ := json.Marshal(c)
+		return b
+	}
 	runHistory(&c)
 	if c.Panic && os.Getenv("C15_NOSHRINK") == "" { // a hang costs 2 s per attempt: reported as found
 		s := shrink(c)
@@ -689,7 +729,7 @@ func childJob(p json.RawMessage) json.RawMessage {
 }
 
 func main() {
-	if childrun.IsChild("child") {
+	if childrun.IsChild("child") || childrun.IsChild("host") {
 		childrun.Serve(childJob)
 	}
 	a := lib.ParseArgs()
@@ -721,6 +761,10 @@ func main() {
 			}
 			cases = append(cases, c)
 		}
+		// the host scenarios (vw.Stream() with default options, a stream subscriber that stalls)
+		for i := 0; i < a.Pick(4, 24); i++ {
+			cases = append(cases, genHost(rng.Fork()))
+		}
 		n := a.Pick(1000, 15000)
 		for i := 0; i < n; i++ {
 			r := rng.Fork()
@@ -745,7 +789,41 @@ func main() {
 		fmt.Fprintln(os.Stderr, err)
 		os.Exit(2)
 	}
-	outs := childrun.RunAll("child", payloads, 6, 30*time.Second, a.Out)
+	// host scenarios share one vw instance in a child of their own (vw.Stream() is one per process);
+	// the hub histories run in other children at the same time
+	childrun.JournalPath = filepath.Join(a.Out, "current.json")
+	var hostIdx, hubIdx []int
+	for i, c := range cases {
+		if c.Kind == "host" {
+			hostIdx = append(hostIdx, i)
+		} else {
+			hubIdx = append(hubIdx, i)
+		}
+	}
+	pick := func(idx []int) []json.RawMessage {
+		ps := make([]json.RawMessage, len(idx))
+		for j, i := range idx {
+			ps[j] = payloads[i]
+		}
+		return ps
+	}
+	outs := make([]childrun.Outcome, len(cases))
+	var wg sync.WaitGroup
+	wg.Add(2)
+	go func() {
+		defer wg.Done()
+		for j, o := range childrun.RunAll("host", pick(hostIdx), 4, 40*time.Second, a.Out) {
+			outs[hostIdx[j]] = o
+		}
+	}()
+	go func() {
+		defer wg.Done()
+		for j, o := range childrun.RunAll("child", pick(hubIdx), 6, 30*time.Second, a.Out) {
+			outs[hubIdx[j]] = o
+		}
+	}()
+	wg.Wait()
+	os.Remove(childrun.JournalPath)
 	for i, o := range outs {
 		if o.Result != nil {
 			var c Case
@@ -776,6 +854,12 @@ func main() {
 		}
 		if c.Hang {
 			res.Count("outcome:hang")
+		}
+		if c.Starved {
+			res.Count("outcome:subscriber-starved(history cut)")
+		}
+		if c.Kind == "host" {
+			res.Count(fmt.Sprintf("host-stall:refuse%d-delay%dms", c.Refuse, c.DelayMs/500*500))
 		}
 		for k, o := range c.Ops {
 			res.Count("op:" + o.K)
